@@ -206,7 +206,7 @@ def followUps (s : Snap) : String :=
   let rt := match wi with
     | .ok xs =>
       match Snap.readFromInts xs, Snap.readBytes (packInts xs) with
-      | .ok (s1, []), .ok (s2, []) => if s1 = s ∧ s2 = s then "1" else "0"
+      | .ok (s1, _), .ok (s2, _) => if s1 = s ∧ s2 = s then "1" else "0"
       | _, _ => "0"
     | _ => "0"
   let selfDelta := match createDelta s.raw s.raw with
@@ -236,7 +236,7 @@ def opRdelta (osz : Nat → Option Nat) (src : Src) (base : List Int) : String :
       | none => "panic"
       | some xs =>
         match readDelta osz (.ints xs), readDelta osz (.bytes (packInts xs)) with
-        | .ok (d1, []), .ok (d2, []) => if d1 = d ∧ d2 = d then "1" else "0"
+        | .ok (d1, _), .ok (d2, _) => if d1 = d ∧ d2 = d then "1" else "0"
         | _, _ => "0"
     let ap := match Snap.readFromInts base with
       | .ok (a, _) =>
